@@ -1,6 +1,7 @@
 package activitypub
 
 import (
+	"bytes"
 	"encoding/json"
 	"fmt"
 	"strconv"
@@ -65,8 +66,15 @@ func JSONWriteNaturalLanguageProp(b *[]byte, n string, nl NaturalLanguageValues)
 	return false
 }
 
+// jsonQuoted returns s as a JSON string literal, with quotes, backslashes and control characters escaped.
+func jsonQuoted(s string) []byte {
+	buf := bytes.Buffer{}
+	stringBytes(&buf, []byte(s), false)
+	return buf.Bytes()
+}
+
 func JSONWriteStringProp(b *[]byte, n string, s string) (notEmpty bool) {
-	return JSONWriteProp(b, n, []byte(fmt.Sprintf(`"%s"`, s)))
+	return JSONWriteProp(b, n, jsonQuoted(s))
 }
 
 func JSONWriteBoolProp(b *[]byte, n string, t bool) (notEmpty bool) {
